@@ -15,6 +15,7 @@ import (
 	"github.com/arloliu/go-secs/v2/hsms"
 	"github.com/arloliu/go-secs/v2/secs2"
 	"github.com/arloliu/go-secs/v2/verifsim/core"
+	"github.com/arloliu/go-secs/v2/verifsim/refe4"
 	"github.com/arloliu/go-secs/v2/verifsim/refhsms"
 	"github.com/arloliu/go-secs/v2/verifsim/rig"
 	"github.com/arloliu/go-secs/v2/verifsim/simnet"
@@ -73,8 +74,14 @@ type scenario struct {
 
 type harness struct {
 	w  *core.World
-	r  *rig.Rig
 	sc scenario
+	C  hsms.Connection
+	N  *simnet.Net
+	secs1 bool
+	// transport-specific peer plumbing
+	links       []*simnet.Link // every connection a peer end was attached to
+	connectPeer func()         // passive library end: a peer dials the listener now
+	sendBound   time.Duration  // extra time a send may spend on the line (write timeout / E4 retries)
 
 	calls   []*call
 	tick    int
@@ -138,36 +145,18 @@ func genScenario(t *core.Tape, faulty bool) scenario {
 func Build(config string) core.BuildFunc {
 	return func(w *core.World) *core.Scenario {
 		h := &harness{w: w}
-		h.sc = genScenario(w.T, config == "faulty")
+		h.sc = genScenario(w.T, config != "clean")
+		h.secs1 = config == "secs1"
 		sc := h.sc
 		h.maxCloseTO = sc.CloseTO
 		h.writeTO = 400 * time.Millisecond
 		wto := h.writeTO
-		h.r = rig.New(w, rig.Opts{Active: sc.Active, Equip: sc.Equip, T3: sc.T3, T5: sc.T5, T6: sc.T6, T7: sc.T7, T8: 300 * time.Millisecond, Linktest: sc.Linktest, LinkThreshold: 1,
-			BackoffInit: 20 * time.Millisecond, BackoffMult: 2, CloseTimeout: sc.CloseTO, ConnectTimeout: sc.ConnTO, WriteTimeout: &wto})
-		r := h.r
-		r.HandlerDelay = sc.Handler
-		r.P.AutoSelectRsp = 0
-		r.P.AutoLinktest = true
-		r.P.OnOpen = func(c *refhsms.Conn) {
-			if !sc.Active {
-				c.SelectReq()
-			}
-			// an unsolicited primary now and then, so that data handlers run (and hold the receive path)
-			if w.T.Choose("peer", 2) == 0 {
-				w.After(time.Duration(5+w.T.Choose("peer", 40))*time.Millisecond, "peer-primary", func() {
-					if c.Alive() {
-						c.SendFrame(refhsms.DataHeader(0xFFFF, 6, 11, false, r.P.NextSys()), refhsms.ASCII("evt"))
-					}
-				})
-			}
+		if config == "secs1" {
+			h.setupSECS1()
+		} else {
+			h.setupHSMS(wto)
 		}
-		r.P.OnFrame = func(c *refhsms.Conn, f refhsms.RxFrame) {
-			if f.H.PType == 0 && f.H.SType == refhsms.STData && f.H.W() {
-				c.SendFrame(refhsms.DataHeader(f.H.Session, f.H.Stream(), f.H.Function()+1, false, f.H.Sys), f.Body)
-			}
-		}
-		r.N.DialPlan = func(n int, address string) simnet.DialOutcome {
+		h.N.DialPlan = func(n int, address string) simnet.DialOutcome {
 			if h.faultsOff || n-1 >= len(sc.DialOut) {
 				return simnet.DialOutcome{Latency: time.Duration(w.T.Choose("net", 3)) * time.Millisecond}
 			}
@@ -187,24 +176,24 @@ func Build(config string) core.BuildFunc {
 		for _, f := range sc.Faults {
 			f := f
 			w.After(f.At, "peer-fault", func() {
-				c := r.P.Last()
-				if c == nil || !c.Alive() || h.faultsOff {
+				l := h.liveLink()
+				if l == nil || h.faultsOff {
 					return
 				}
 				switch f.Kind {
 				case 0:
 					w.Fault("fin")
-					c.L.FIN()
+					l.FIN()
 				case 1:
 					w.Fault("rst")
-					c.L.RST()
+					l.RST()
 				case 2:
 					w.Fault("silence")
-					c.L.Stall(true, 0)
+					l.Stall(true, 0)
 				case 3:
 					w.Fault("sndfull")
-					c.L.SetCap(48)
-					c.L.Stall(false, 0)
+					l.SetCap(48)
+					l.Stall(false, 0)
 				}
 			})
 		}
@@ -223,7 +212,7 @@ func Build(config string) core.BuildFunc {
 			Horizon:    120 * time.Second,
 			Done:       func() bool { return h.phase == 3 && w.Idle() },
 			Final:      h.final,
-			Cleanup:    func() { h.stop = true; r.Close() },
+			Cleanup:    func() { h.stop = true; _ = h.C.Close() },
 			Nontrivial: func() bool { return len(h.calls) >= 4 },
 		}
 	}
@@ -245,7 +234,7 @@ func (h *harness) describe() map[string]any {
 }
 
 func (h *harness) peerDialLoop() {
-	w, r := h.w, h.r
+	w := h.w
 	var tick func()
 	tick = func() {
 		if h.stop || h.phase >= 2 {
@@ -253,16 +242,16 @@ func (h *harness) peerDialLoop() {
 		}
 		// one connection per listener, PeerLag after the library started listening (1 ms once the
 		// finale has declared the peer healthy)
-		if n := len(r.N.Listeners); n > h.seenListeners {
+		if n := len(h.N.Listeners); n > h.seenListeners {
 			h.seenListeners, h.seenAt = n, w.Now()
 		}
 		lag := h.sc.PeerLag
 		if h.faultsOff {
 			lag = time.Millisecond
 		}
-		if r.N.Listening(rig.Addr) && h.seenListeners > h.usedListeners && w.Now() >= h.seenAt+lag {
+		if h.N.Listening(rig.Addr) && h.seenListeners > h.usedListeners && w.Now() >= h.seenAt+lag {
 			h.usedListeners = h.seenListeners
-			r.P.Connect(rig.Addr)
+			h.connectPeer()
 		}
 		w.After(5*time.Millisecond, "peer-dial-tick", tick)
 	}
@@ -274,20 +263,20 @@ func (h *harness) connectNow() {
 	if h.sc.Active {
 		return
 	}
-	if last := h.r.P.Last(); last != nil && last.Alive() && last.L.A.ClosedAt < 0 {
+	if h.liveLink() != nil {
 		return
 	}
-	if h.r.N.Listening(rig.Addr) {
+	if h.N.Listening(rig.Addr) {
 		h.w.Probe("peer_connect_at_close")
-		h.seenListeners = len(h.r.N.Listeners)
+		h.seenListeners = len(h.N.Listeners)
 		h.usedListeners = h.seenListeners
-		h.r.P.Connect(rig.Addr)
+		h.connectPeer()
 	}
 }
 
 func (h *harness) begin(g, i, kind int, bound time.Duration) *call {
 	h.tick++
-	c := &call{G: g, I: i, Kind: kind, Tick0: h.tick, T0: h.w.Now(), Bound: bound, Dials0: h.r.N.Dials + h.r.N.Listens, State0: h.r.C.State()}
+	c := &call{G: g, I: i, Kind: kind, Tick0: h.tick, T0: h.w.Now(), Bound: bound, Dials0: h.N.Dials + h.N.Listens, State0: h.C.State()}
 	h.calls = append(h.calls, c)
 	h.w.Logf("op app%d#%d %s start", g, i, opNames[kind])
 
@@ -297,7 +286,7 @@ func (h *harness) begin(g, i, kind int, bound time.Duration) *call {
 func (h *harness) end(c *call, err error) {
 	h.tick++
 	c.Tick1, c.T1, c.Err, c.Done = h.tick, h.w.Now(), err, true
-	c.Dials1, c.State1 = h.r.N.Dials+h.r.N.Listens, h.r.C.State()
+	c.Dials1, c.State1 = h.N.Dials+h.N.Listens, h.C.State()
 	h.w.Logf("op app%d#%d %s end err=%v", c.G, c.I, opNames[c.Kind], err)
 }
 
@@ -313,7 +302,7 @@ func (h *harness) closeBound() time.Duration {
 }
 
 func (h *harness) doOp(g, i int, o op) {
-	C := h.r.C
+	C := h.C
 	w := h.w
 	switch o.Kind {
 	case oOpenBG:
@@ -343,7 +332,7 @@ func (h *harness) doOp(g, i int, o op) {
 		h.end(c, err)
 	case oSendW:
 		ctx, cancel := context.WithTimeout(context.Background(), o.Arg)
-		c := h.begin(g, i, o.Kind, o.Arg+h.sc.T3+h.writeTO+10*time.Millisecond)
+		c := h.begin(g, i, o.Kind, o.Arg+h.sc.T3+h.sendBound+10*time.Millisecond)
 		_, err := C.SendDataMessage(ctx, 1, 1, true, secs2.A(fmt.Sprintf("m%d-%d", g, i)))
 		cancel()
 		h.end(c, err)
@@ -406,17 +395,17 @@ func (h *harness) script(g int, ops []op) {
 //   Close -> Open -> Selected + round trip                              [reopen behaves like new]
 //   Close -> Close (idempotent) -> census.
 func (h *harness) finale() {
-	w, C := h.w, h.r.C
+	w, C := h.w, h.C
 	h.phase = 1
 	h.faultsOff = true
 	// a connection wedged or silenced by an earlier fault is given back to a healthy network
 	if w.Faults["silence"] > 0 || w.Faults["sndfull"] > 0 {
-		for _, c := range h.r.P.Conns {
-			if !c.Alive() || c.L.A == nil || !c.L.A.Handed || c.L.A.ClosedAt >= 0 {
+		for _, l := range h.links {
+			if l.Closed || l.A == nil || !l.A.Handed || l.A.ClosedAt >= 0 {
 				continue
 			}
-			c.L.RST()
-			for i := 0; i < 400 && c.L.A.ClosedAt < 0; i++ {
+			l.RST()
+			for i := 0; i < 400 && l.A.ClosedAt < 0; i++ {
 				core.Sleep(5 * time.Millisecond) // until the library has dropped the reset connection
 			}
 		}
@@ -449,7 +438,7 @@ func (h *harness) finale() {
 
 				continue
 			}
-			lastErr = step(oSendW, h.sc.T3+h.writeTO+10*time.Millisecond, func() error {
+			lastErr = step(oSendW, h.sc.T3+h.sendBound+10*time.Millisecond, func() error {
 				rep, err := C.SendDataMessage(context.Background(), 2, 1, true, secs2.A("trip"))
 				if err == nil && rep == nil {
 					return errors.New("nil reply")
@@ -463,7 +452,7 @@ func (h *harness) finale() {
 			core.Sleep(5 * time.Millisecond)
 		}
 		fail("%s: no working Selected session within %v although the peer is healthy and reachable (state %v, last round-trip error %v, %d dials, %d listens, Reconnecting()=%d)",
-			what, recoverBound, C.State(), lastErr, h.r.N.Dials, h.r.N.Listens, C.Metrics().Reconnecting())
+			what, recoverBound, C.State(), lastErr, h.N.Dials, h.N.Listens, C.Metrics().Reconnecting())
 
 		return false
 	}
@@ -473,11 +462,11 @@ func (h *harness) finale() {
 	}
 	if h.finalErr == "" && reach("the connection left open (or reopened) by the history") {
 		// Open on an open connection: the already-open error, no side effects
-		d0, s0 := h.r.N.Dials+h.r.N.Listens, C.State()
+		d0, s0 := h.N.Dials+h.N.Listens, C.State()
 		if err := step(oOpenBG, 10*time.Millisecond, func() error { return C.Open(context.Background(), hsms.OpenBackground) }); !errors.Is(err, hsms.ErrAlreadyOpen) {
 			fail("Open on an open, Selected connection returned %v, want the already-open error", err)
 		}
-		if d1, s1 := h.r.N.Dials+h.r.N.Listens, C.State(); d1 != d0 || s1 != s0 {
+		if d1, s1 := h.N.Dials+h.N.Listens, C.State(); d1 != d0 || s1 != s0 {
 			fail("Open on an open connection had side effects: dial/listen attempts %d->%d, state %v->%v", d0, d1, s0, s1)
 		}
 	}
@@ -489,7 +478,7 @@ func (h *harness) finale() {
 	}
 	e1 := step(oClose, 0, C.Close)
 	h.finalCloseRet = w.Now()
-	h.dialsAtClose, h.listensAtClose = h.r.N.Dials, h.r.N.Listens
+	h.dialsAtClose, h.listensAtClose = h.N.Dials, h.N.Listens
 	e2 := step(oClose, 0, C.Close)
 	if (e1 == nil) != (e2 == nil) || (e1 != nil && e1.Error() != e2.Error()) {
 		fail("Close is not idempotent: first returned %v, second %v", e1, e2)
@@ -594,7 +583,7 @@ func linearizable(calls []*call) bool {
 }
 
 func (h *harness) final(reason string) {
-	w, r := h.w, h.r
+	w := h.w
 	for _, c := range h.calls {
 		if !c.Done {
 			w.Fail("BLOCKED", "%s (app%d#%d) started at %v never returned (run ended: %s at %v)", opNames[c.Kind], c.G, c.I, c.T0, reason, w.Now())
@@ -691,19 +680,19 @@ func (h *harness) final(reason string) {
 		return
 	}
 	// ---- (2) census after the last Close
-	if r.N.Dials != h.dialsAtClose || r.N.Listens != h.listensAtClose {
-		w.Fail("AFTER_CLOSE", "dial/listen attempts after the final Close returned: dials %d->%d, listens %d->%d", h.dialsAtClose, r.N.Dials, h.listensAtClose, r.N.Listens)
+	if h.N.Dials != h.dialsAtClose || h.N.Listens != h.listensAtClose {
+		w.Fail("AFTER_CLOSE", "dial/listen attempts after the final Close returned: dials %d->%d, listens %d->%d", h.dialsAtClose, h.N.Dials, h.listensAtClose, h.N.Listens)
 
 		return
 	}
-	for _, c := range r.N.Conns {
+	for _, c := range h.N.Conns {
 		if c.Handed && !c.IsClosed() {
 			w.Fail("SOCKET_LEAK", "connection #%d handed to the library was never closed by it (after the final Close)", c.ID())
 
 			return
 		}
 	}
-	for i, ln := range r.N.Listeners {
+	for i, ln := range h.N.Listeners {
 		if !ln.Closed() {
 			w.Fail("SOCKET_LEAK", "listener #%d was never closed (after the final Close)", i+1)
 
@@ -715,7 +704,106 @@ func (h *harness) final(reason string) {
 
 		return
 	}
-	if st := r.C.State(); st != hsms.NotConnectedState {
+	if st := h.C.State(); st != hsms.NotConnectedState {
 		w.Fail("AFTER_CLOSE", "State() = %v after the final Close", st)
+	}
+}
+
+// liveLink returns the newest peer link that is up and that the library has not closed.
+func (h *harness) liveLink() *simnet.Link {
+	for i := len(h.links) - 1; i >= 0; i-- {
+		l := h.links[i]
+		if !l.Closed && l.A != nil && l.A.ClosedAt < 0 && l.ToLib().FinDeliveredAt() < 0 && l.ToPeer().FinDeliveredAt() < 0 {
+			return l
+		}
+
+		return nil
+	}
+
+	return nil
+}
+
+func (h *harness) setupHSMS(wto time.Duration) {
+	w, sc := h.w, h.sc
+	r := rig.New(w, rig.Opts{Active: sc.Active, Equip: sc.Equip, T3: sc.T3, T5: sc.T5, T6: sc.T6, T7: sc.T7, T8: 300 * time.Millisecond, Linktest: sc.Linktest, LinkThreshold: 1,
+		BackoffInit: 20 * time.Millisecond, BackoffMult: 2, CloseTimeout: sc.CloseTO, ConnectTimeout: sc.ConnTO, WriteTimeout: &wto})
+	h.C, h.N = r.C, r.N
+	h.sendBound = wto
+	r.HandlerDelay = sc.Handler
+	r.P.AutoSelectRsp = 0
+	r.P.AutoLinktest = true
+	r.P.OnOpen = func(c *refhsms.Conn) {
+		h.links = append(h.links, c.L)
+		if !sc.Active {
+			c.SelectReq()
+		}
+		// an unsolicited primary now and then, so that data handlers run (and hold the receive path)
+		if w.T.Choose("peer", 2) == 0 {
+			w.After(time.Duration(5+w.T.Choose("peer", 40))*time.Millisecond, "peer-primary", func() {
+				if c.Alive() {
+					c.SendFrame(refhsms.DataHeader(0xFFFF, 6, 11, false, r.P.NextSys()), refhsms.ASCII("evt"))
+				}
+			})
+		}
+	}
+	r.P.OnFrame = func(c *refhsms.Conn, f refhsms.RxFrame) {
+		if f.H.PType == 0 && f.H.SType == refhsms.STData && f.H.W() {
+			c.SendFrame(refhsms.DataHeader(f.H.Session, f.H.Stream(), f.H.Function()+1, false, f.H.Sys), f.Body)
+		}
+	}
+	h.connectPeer = func() { r.P.Connect(rig.Addr) }
+}
+
+// setupSECS1: the same lifecycle histories over the SECS-I transport against the SEMI E4
+// reference peer (it grants the line, acknowledges blocks, answers W-bit primaries, and sends an
+// unsolicited single-block message now and then).
+func (h *harness) setupSECS1() {
+	w, sc := h.w, h.sc
+	const (
+		t1 = 40 * time.Millisecond
+		t2 = 100 * time.Millisecond
+	)
+	device := uint16(w.T.Choose("scn", 32768))
+	r := rig.NewSECS1(w, rig.Opts1{Active: sc.Active, Equip: sc.Equip, Device: device, T1: t1, T2: t2, T3: sc.T3, T4: time.Second, T5: sc.T5, Retry: 1,
+		BackoffInit: 20 * time.Millisecond, BackoffMult: 2, CloseTimeout: sc.CloseTO, ConnectTimeout: sc.ConnTO})
+	h.C, h.N = r.C, r.N
+	h.sendBound = 2*t2*2 + 50*time.Millisecond // (retry limit + 1) attempts of one block, each up to two T2 waits
+	if sc.Handler > 0 {
+		r.OnDeliver = func(m *hsms.DataMessage, ep hsms.SECS2Endpoint) { core.Sleep(sc.Handler) }
+	}
+	sys := uint32(0x70000000)
+	mkPeer := func() *refe4.Peer {
+		p := refe4.New(w, !sc.Equip, t1, t2)
+		p.OnBlock = func(b refe4.RxBlock) {
+			if b.Valid && b.H.E && b.H.W {
+				rh := refe4.Header{Device: device, R: !b.H.R, Stream: b.H.Stream, Func: b.H.Func + 1, Num: 1, E: true, Sys: b.H.Sys}
+				p.SendBlock(refe4.Wire(rh, []byte{0x21, 0x01, 0x00}), nil, nil, nil)
+			}
+		}
+		if w.T.Choose("peer", 2) == 0 {
+			w.After(time.Duration(5+w.T.Choose("peer", 40))*time.Millisecond, "peer-primary", func() {
+				if !p.Dead && p.L != nil {
+					sys++
+					eh := refe4.Header{Device: device, R: !sc.Equip, Stream: 6, Func: 11, Num: 1, E: true, Sys: sys}
+					p.SendBlock(refe4.Wire(eh, []byte{0x41, 0x03, 'e', 'v', 't'}), nil, nil, nil)
+				}
+			})
+		}
+
+		return p
+	}
+	h.N.OnConnect = func(l *simnet.Link) simnet.RawEnd {
+		p := mkPeer()
+		p.L = l
+		h.links = append(h.links, l)
+
+		return p
+	}
+	h.connectPeer = func() {
+		p := mkPeer()
+		if l := h.N.PeerConnect(rig.Addr, p); l != nil {
+			p.L = l
+			h.links = append(h.links, l)
+		}
 	}
 }
